@@ -232,7 +232,7 @@ def resolveLinks (s : State) (env : Env) : Nat → Name → Int → Nat → Stri
   | 0, _, _, k => s!"budget-exhausted.after{k}"
   | fuel + 1, name, typ, k =>
     let name := if name.getLast? = some dot then name.dropLast else name
-    match (if name.length = 0 then none else allRecords s env name none) with
+    match (if name.length = 0 then none else allRecords s env name) with
     | none => s!"unreachable.after{k}"
     | some rs =>
       let cname := ((rs.filter (fun r => r.typ == 5)).map (·.data)).getLastD []
@@ -248,7 +248,8 @@ def whyQuery (s : State) (env : Env) (ws : List String) (halt : Bool) : String :
     let n := parseHex n
     if halt then sub s env n else
     if isTLD n then "tld" else if !env.nameOK n then "syntax" else
-    match whyNameState s env.now (tokenOf s env.now n) (split dot n) with
+    let tok := tokenOf s env.now n
+    match whyNameState s env.now tok (split dot tok) with
     | some w => s!"{w}.{sub s env n}"
     | none => "?"
   | ["q.isAvailable", n] =>
